@@ -231,6 +231,7 @@ B("C18", "trim-without-plus-one", "timeseries.py", "self.amplitude = self.amplit
 B("C18", "refusal-removed", "timeseries.py", "        if start_time >= end_time:\n", "        if False:\n")
 N("C18", "explicit-copy", "timeseries.py", "self.amplitude = np.array(amplitude, dtype=np.double)", "self.amplitude = np.array(amplitude, dtype=np.double, copy=True)")
 
+B("C18", "load-memoised", "seismic_recording_3c.py", "    @classmethod\n    def load(cls, fname):", "    @classmethod\n    @__import__('functools').lru_cache(maxsize=8)\n    def load(cls, fname):")
 # ----------------------------------------------------------------------------- C19
 N("C19", "shared-processing-settings", "cli.py", "    processing_settings = copy.deepcopy(processing_settings)\n", "", note="process() works on its own copy since 6984ed3: sharing the processing settings between tasks is harmless")
 B("C19", "constant-output-name", "cli.py", 'f"{pathlib.Path(fname).stem}.csv",', '"output.csv",')
@@ -238,6 +239,8 @@ B("C19", "module-cache", "cli.py", "def _process_hvsr(fname, preprocessing_setti
 B("C19", "swapped-settings-files", "cli.py", 'preprocessing_settings = read_settings_object_from_file(kwargs.pop("preprocessing_settings_file"))\n    processing_settings = read_settings_object_from_file(kwargs.pop("processing_settings_file"))',
   'preprocessing_settings = read_settings_object_from_file(kwargs.pop("processing_settings_file"))\n    processing_settings = read_settings_object_from_file(kwargs.pop("preprocessing_settings_file"))')
 
+B("C19", "file-names-resolved", "cli.py", "@click.argument('file_names', nargs=-1, type=click.Path())", "@click.argument('file_names', nargs=-1, type=click.Path(resolve_path=True))")
+N("C19", "file-names-must-exist", "cli.py", "@click.argument('file_names', nargs=-1, type=click.Path())", "@click.argument('file_names', nargs=-1, type=click.Path(exists=True, dir_okay=False))")
 # ----------------------------------------------------------------------------- C20
 B("C20", "restore-omitted", "postprocessing.py", "    hvsr.valid_window_boolean_mask = store_valid_window_boolean_mask\n    hvsr.valid_peak_boolean_mask = store_valid_peak_boolean_mask\n", "    hvsr.valid_window_boolean_mask = store_valid_window_boolean_mask\n")
 B("C20", "helper-scales-amplitude", "postprocessing.py", "    for hvsr in hvsrs:\n        to_plot = hvsr.valid_window_boolean_mask if valid else ~hvsr.valid_window_boolean_mask\n", "    for hvsr in hvsrs:\n        hvsr.amplitude /= np.max(hvsr.amplitude)\n        to_plot = hvsr.valid_window_boolean_mask if valid else ~hvsr.valid_window_boolean_mask\n")
